@@ -235,7 +235,7 @@ def run(res, proof):
     res.evaluations += len(xops)
     cu.source_derived_stream(res, proof, 'complex_utils.loop_index.source-derived', ops + xops, impl + ximpl)
     from .pycomplex2_stream import source_derived_pycomplex2
-    source_derived_pycomplex2(res, proof)      # is_domainlevel_complement / split as translated from the working tree
+    core.run_stream(source_derived_pycomplex2, res, proof)      # is_domainlevel_complement / split as translated from the working tree
     for op in ops[::max(1, len(ops) // 8)]:
         res.sample('\t'.join(op))
 
